@@ -1,6 +1,7 @@
 """C20 — date part and clock part compose: '<day> <time>' is that day at that
 time.  Three executions per case (day alone, clock alone with latent off,
 both); oracle: homomorphism."""
+import zlib
 from datetime import date, datetime, timedelta
 
 from ..spec import cal, grammar as G, values as V
@@ -74,12 +75,20 @@ def gen_cases(tier, seed):
                     # day parameters and reference time are a fixed function of the combination (not of the seed): the
                     # thorough tier enumerates this family completely, the quick tier replays a seeded subset of the SAME
                     # cases, so the set of beam-truncation families it can meet is closed
-                    import zlib
                     hsh = zlib.crc32(("%s|%s|%s|%s" % (dn, ct, order, conn)).encode("utf-8"))
                     p = {"y": 1990 + hsh % 40, "m": 1 + (hsh >> 6) % 12, "d": 1 + (hsh >> 10) % 28, "dow": (hsh >> 15) % 7}
                     cases.append({"dn": dn, "p": p, "cn": cn, "ct": ct, "h": h, "mi": mi, "o": order, "c": conn, "ts": C.iso(REFS[(hsh >> 18) % len(REFS)])})
+    # the clock's boundary values with every day form: first and last minute of the day, noon and its neighbours
+    for dn in G.DAY_FORMS:
+        for cn in ("H:MM", "HH:MM", "HH:MM Uhr", "h:MM am", "HhMM"):
+            for (h, mi) in ((0, 0), (0, 1), (23, 59), (23, 0), (12, 0), (11, 59), (12, 59), (13, 0)):
+                for order in ("day-clock", "clock-day"):
+                    hsh = zlib.crc32(("%s|%s|%d:%d|%s" % (dn, cn, h, mi, order)).encode("utf-8"))
+                    if tier != "thorough" and (hsh + seed) % 3:
+                        continue
+                    p = {"y": 1990 + hsh % 40, "m": 1 + (hsh >> 6) % 12, "d": 1 + (hsh >> 10) % 28, "dow": (hsh >> 15) % 7}
+                    cases.append({"dn": dn, "p": p, "cn": cn, "h": h, "mi": mi, "o": order, "c": ("_", "at", "um")[hsh % 3], "ts": C.iso(REFS[(hsh >> 18) % len(REFS)])})
     # every weekday spelling (abbreviations with and without the dot, supported typos) next to a few clocks: fixed cases
-    import zlib
     for wi, ws in enumerate(G.DOW):
         for w in ws:
             for dn in G.DAY_FORMS_SPELLED:
